@@ -92,6 +92,7 @@ type Options struct {
 	PlainStrings    bool
 	FirstIFD        int  // > 0: offset of IFD0 (the bytes between the TIFF header and it are padding)
 	BigDims         bool // image dimensions beyond 65535 (LONG)
+	MistypedText    bool // text tags the record leaves out are present with a numeric type (SHORT / LONG, embedded or not): not text, so the field stays empty
 	CameraBias      bool // exposure compensation the way cameras write it (n/100, n/10, n/6 ... up to +-5 EV: numerators beyond +-127)
 	Arrays          bool // ISOSpeedRatings with 3..5 SHORT / 2..4 LONG values and StripOffsets / StripByteCounts with 2..5 entries (stored out of line; the first value is the reported one)
 	LongText        bool // one or two of ImageDescription / Software / Copyright are 1023..20000 bytes long (around and beyond the readers' 1 KiB / 4 KiB windows)
@@ -816,6 +817,44 @@ func GenExif(rt *rapid.T, o Options) *ExifFile {
 				}
 				dd.d.Entries = append(dd.d.Entries, e)
 				f.Foreign++
+			}
+		}
+	}
+	if o.MistypedText {
+		for _, dd := range dirs[:2] {
+			if dd.d == nil {
+				continue
+			}
+			texts := []uint16{0x010e, 0x010f, 0x0110, 0x0131, 0x013b, 0x8298, 0xc62f}
+			if dd.d == exif {
+				texts = []uint16{0xa430, 0xa431, 0xa433, 0xa434, 0xa435}
+			}
+			for _, id := range texts {
+				have := false
+				for _, e := range dd.d.Entries {
+					have = have || e.Tag == id
+				}
+				if have || len(dd.d.Entries) >= lim || !Chance(rt, fmt.Sprintf("mistyped.%04x", id), 0.3) {
+					continue
+				}
+				var v Val
+				switch rapid.IntRange(0, 3).Draw(rt, "mistyped.kind") {
+				case 0:
+					v = Short(0x4142, 0x4344)
+				case 1:
+					v = Short(0x4100 | uint16(rapid.IntRange(0x42, 0x5a).Draw(rt, "mistyped.c")))
+				case 2:
+					v = Long(0x41424344)
+				default:
+					if refs >= pendingLimit {
+						continue
+					}
+					refs++
+					v = Short(0x4142, 0x4344, 0x4546, 0x4748, 0x494a, 0x4b00)
+				}
+				dd.d.Entries = append(dd.d.Entries, Entry{Tag: id, V: v})
+				usedBy[dd.d][id] = true
+				f.Classes = append(f.Classes, "mistyped-text-tag")
 			}
 		}
 	}
